@@ -262,7 +262,19 @@ def load_known():
     return json.load(open(KNOWN))
 
 
+def _exp_dir(default):
+    """Experiments on a scratch worktree (VERIF_REPO) must not overwrite the evidence of /repo."""
+    repo = os.environ.get("VERIF_REPO")
+    if repo and os.path.abspath(repo) != "/repo":
+        d = os.path.join(WORK, "exp" + re.sub(r"[^A-Za-z0-9]", "_", os.path.abspath(repo)), os.path.basename(default))
+        os.makedirs(d, exist_ok=True)
+        return d
+    return default
+
+
 def write_evidence(pid, tier, level, coverage, assumptions, wall, violations):
+    global EVIDENCE
+    EVIDENCE = _exp_dir(os.path.join(VERIF, "evidence"))
     os.makedirs(EVIDENCE, exist_ok=True)
     ev = {
         "property_id": pid,
@@ -280,6 +292,8 @@ def write_evidence(pid, tier, level, coverage, assumptions, wall, violations):
 
 
 def write_replay(pid, name, obj):
+    global REPLAYS
+    REPLAYS = _exp_dir(os.path.join(VERIF, "replays"))
     os.makedirs(REPLAYS, exist_ok=True)
     p = os.path.join(REPLAYS, f"{pid}-{name}.json")
     with open(p, "w") as fh:
